@@ -513,3 +513,4 @@ def _r05_6(res, P, cfgname):
 
 LEVEL = LEVEL + ' Also (R05.3b) the shortcut conditions of the float comparison kernel are closed under operand exchange, (R05.3c) every log2-estimate shortcut of the comparison kernels compares a lower bound with an upper bound, (R17.7/R17.8, shared) Repr::clone_from fixes the sign from the current capacity and never leaks; compile-fail witnesses (thorough): no Hash for FBig / Relaxed, no base mixing.'
 TECHNIQUE = 'typestate of canonical forms over constructor / writer sets; projection agreement of Eq / Hash impls; finite comparison tables (FDT); mirror-symmetry of shortcut conditions; bound-polarity type system; compile-fail witnesses'
+LEVEL = LEVEL + ' Also (R05.4a) the literals of convert_base are field copies of the operand; (R17.7, shared) Zeroize resets to the canonical zero.'
